@@ -98,7 +98,11 @@ def _expired_only(snap, final, now):
     return True
 
 
+_DETAIL = {}    # (op index, signature, text) -> (browser, type, lower-cased instance) of the last `oracle` run, for the three signatures S1/S6 refine
+
+
 def oracle(probes, ops, obs, res):
+    _DETAIL.clear()
     found = []
     live = {}      # (bid, type, lower name) -> bool
     active = {}    # bid -> types
@@ -142,6 +146,9 @@ def oracle(probes, ops, obs, res):
             counts[ch] += 1
             key = (bid, type_, name.lower())
             if bid not in active:
+                # (a browser cancelled in an EARLIER op, or by a BR op.  A browser that its own handler cancels in the middle of a batch
+                # stays `active` until the end of this op: the property says nothing about the rest of a batch that was already being
+                # fired -- the asyncio flavour delivers it, the threaded flavour's run() drops it; both are accepted)
                 found.append((idx, "C04:callback-from-cancelled-browser", "browser %d is cancelled but delivered %s(%s)" % (bid, ch, name)))
             elif type_ not in active[bid]:
                 found.append((idx, "C04:callback-for-foreign-type", "browser %d does not browse %s but delivered %s(%s)" % (bid, type_, ch, name)))
@@ -151,9 +158,11 @@ def oracle(probes, ops, obs, res):
                 live[key] = True
                 if not seen:
                     found.append((idx, "C04:added-before-cached", "inside add_service(%s, %s) the cache lookup does not find the pointer record" % (type_, name)))
+                    _DETAIL[(idx, "C04:added-before-cached", found[-1][2])] = key
             elif ch == "R":
                 if not live.get(key):
                     found.append((idx, "C04:removed-without-added", "browser %d delivered Removed(%s, %s) for an instance that is not currently added" % (bid, type_, name)))
+                    _DETAIL[(idx, "C04:removed-without-added", found[-1][2])] = key
                 live[key] = False
             # "callbacks are delivered only after the records of the triggering datagram are in the cache": demanded of Added callbacks
             # (the sentence's own example is the lookup from inside add_service); what Removed / Updated callbacks see is compared with
@@ -162,6 +171,13 @@ def oracle(probes, ops, obs, res):
             if ch == "A" and snap is not None and snap != o["S"] and not (
                     made and _expired_only(snap, o["S"], (CC.op_time(op) or 0) + (o.get("ticks") or 0))):
                 found.append((idx, "C04:callback-before-cache-update", "the cache seen inside the %s callback for %s differs from the cache after the op" % (ch, name)))
+                _DETAIL[(idx, "C04:callback-before-cache-update", found[-1][2])] = key
+        for e in (o.get("events") or []):
+            if e[0] == "k":
+                # cancelled by its own handler during this op: from now on it owes (and may deliver) nothing
+                active.pop(e[3][0], None)
+                for key in [x for x in live if x[0] == e[3][0]]:
+                    del live[key]
         if o["P"] is not None:
             for bid, types in active.items():
                 for t in types:
@@ -287,7 +303,7 @@ def gen_history(rng, depth, wf=True):
             recs = CC.gen_datagram(rng, vocab, ref, opts)
             if wf:
                 recs = one_spelling(recs)
-            ops.append(["D", now, recs, []])
+            ops.append(["D", now, recs, []] + CC.gen_wire_opts(rng, recs, allow6=True))
             ref.datagram(now, recs)
     return ops
 
@@ -471,9 +487,30 @@ def add_plans(rng, ops):
 # S1 / S6 (findings; notes/agents/C06.md "Residual findings"): a hand-written RecordUpdateListener that registers a listener WITH a question
 # from inside its UPDATE callback (async_add_listener purges and runs nested rounds in the middle of the datagram's first round).  Browsers
 # iterated after it are told Removed twice for a withdrawn record that had run out unpurged (S1); browsers iterated before it have their
-# pending Added fired by the nested completion before the datagram's records are cached (S6).  Outside the model (stage O only).
+# pending Added fired by the nested completion before the datagram's records are cached (S6).  Stage O only (the driver's composite does
+# not interleave browsers with recording listeners); Lean counterpart: Props/C04Reentrant.lean (`updateRoundReentrant`, `S1_alternates_statement`
+# / `S6_added_after_cache_statement` with `_refuted` at these witnesses, input classes `S1Class` / `S6Class` = `update_round_classes` below).
 S1_SIG = "C04:update-round-reentrant-listener:removed-twice"
 S6_SIG = "C04:update-round-reentrant-listener:added-before-cached"
+
+
+def cancel_in_handler_histories():
+    """a browser's own service handler cancels the browser in the middle of a batch (plan with new id -1): both flavours (2 = asyncio,
+    3 = threaded-like), the cancelling event first / last of a batch of Added resp. Removed, another browser next to it, and a
+    datagram afterwards (a cancelled browser must stay silent in later ops)"""
+    P, PB = VOCAB[0], VOCAB[2]
+    for bid in (2, 3):
+        for trig_name in ("a._x._tcp.local.", "b._x._tcp.local."):
+            for trigger in ("A", "R"):
+                for other in ([], [0]):
+                    t0 = CC.T0
+                    ops = [["BA", bid, t0, [TX]]] + [["BA", b, t0, [TX]] for b in other]
+                    ops.append(["BP", bid, trigger, trig_name, -1, []])
+                    ops.append(["D", t0, [CC.inst(P, 4500, 0), CC.inst(PB, 4500, 0)], []])
+                    ops.append(["D", t0 + 5000, [CC.inst(P, 0, 0), CC.inst(PB, 0, 0)], []])
+                    ops.append(["D", t0 + 9000, [CC.inst(P, 4500, 0), CC.inst(VOCAB[3], 4500, 0)], []])
+                    ops.append(["X", t0 + 20000])
+                    yield ops
 
 
 def update_round_histories():
@@ -491,15 +528,69 @@ def update_round_histories():
         yield ops
 
 
+def update_round_classes(ops):
+    """the input classes of S1 / S6 (Lean: `S1Class`, `S6Class` in Props/C04Reentrant.lean), computed from the history alone.
+    Returns {op index: (s1 keys, s6 keys)}, keys = (browser, type, lower-cased instance).  In a datagram op a registered recording listener
+    L has a scripted phase-1 (update round, depth 0) `add with a question` reaction with clock reading t = now + dt, and
+      S1: the datagram withdraws (zero-TTL copy) a cached pointer record of a type browser B browses whose TTL had fully elapsed at t
+          (run out, unpurged), and L is iterated BEFORE B (set order: recording listeners hash to their id, browsers to 7 + id);
+      S6: the datagram announces (non-zero TTL) a pointer record of a type B browses that is not cached, some cached record had run out at
+          t (so the nested purge has rounds to run), and L is iterated AFTER B."""
+    ref = CC.Ref()
+    registered = set()
+    browsers = {}
+    out = {}
+    for idx, op in enumerate(ops):
+        k = op[0]
+        if k == "LA":
+            registered.add(op[1])
+        elif k == "LR":
+            registered.discard(op[1])
+        elif k == "BA":
+            ref.purge(op[2])
+            browsers[op[1]] = list(op[3])
+        elif k == "BR":
+            browsers.pop(op[1], None)
+        elif k == "X":
+            ref.purge(op[1])
+        elif k in ("D", "W"):
+            now = op[1]
+            s1, s6 = set(), set()
+            for r in op[3]:
+                if not (r[0] == 1 and r[2] == 2 and r[1] in registered):
+                    continue
+                lid, t = r[1], now + r[4]
+                run_out = {i for i, e in ref.d.items() if e[0] + 1000 * e[1] <= t}
+                for bid, types in browsers.items():
+                    first = lid < 7 + bid
+                    for rec in op[2]:
+                        if rec[0] != "p" or rec[2] != 12 or rec[1] not in types:
+                            continue
+                        i = CC.ident_of(rec)
+                        key = (bid, rec[1], rec[6].lower())
+                        if first and rec[5] == 0 and i in run_out:
+                            s1.add(key)
+                        if not first and rec[5] != 0 and i not in ref.d and run_out:
+                            s6.add(key)
+            if s1 or s6:
+                out[idx] = (s1, s6)
+            ref.datagram(now, op[2])
+    return out
+
+
 def oracle_update_round(probes, ops, obs, res):
+    """the plain C04 predicates; a violation is reported under a finding's signature only if it is the violation that finding predicts
+    for this input: same op, same browser, same (type, instance), and the history is in the finding's input class.  Anything else keeps
+    its plain signature (e.g. an Added for a *purged* record fired by a nested round, mutant mY)"""
     out = []
+    classes = update_round_classes(ops)
     for idx, sig, what in oracle(probes, ops, obs, res):
-        o = obs[idx] if idx < len(obs) else {}
-        reentrant = any(x[2] == 2 and x[4] == 1 for x in (o.get("executed") or []))
-        if reentrant and sig == "C04:removed-without-added":
+        key = _DETAIL.get((idx, sig, what))
+        s1, s6 = classes.get(idx, (set(), set()))
+        if sig == "C04:removed-without-added" and key in s1:
             out.append((idx, S1_SIG, "a listener registered another listener with a question from inside its update callback while the record the datagram "
                         "withdraws had run out unpurged: the nested purge round and the datagram's own completion round both report it; " + what))
-        elif reentrant and sig in ("C04:added-before-cached", "C04:callback-before-cache-update"):
+        elif sig in ("C04:added-before-cached", "C04:callback-before-cache-update") and key in s6:
             out.append((idx, S6_SIG, "a listener registered another listener with a question from inside its update callback: the nested completion round "
                         "fired a browser's pending callback before the datagram's records were cached; " + what))
         else:
@@ -607,7 +698,7 @@ def run(ctx):
     tier, seed = ctx["tier"], ctx["seed"]
     wide = 4 if ctx.get("widened") else 1
     n_random = C.Budget(tier, 700, 6000).n * wide
-    deadline = t0 + (420 if tier == "thorough" else 60) * (1.8 if wide > 1 else 1)
+    deadline = t0 + (420 if tier == "thorough" else 75) * (1.4 if wide > 1 else 1)
     run_ = CC.Runner(res, "C04", ctx, oracle, valid=well_formed)
     probes = CC.vocab_probes(VOCAB, [TX, TY, TZ, TS])
 
@@ -662,6 +753,9 @@ def run(ctx):
     run_ur = CC.Runner(res, "C04", ctx, oracle_update_round, valid=update_round_valid)
     for ops in update_round_histories():
         run_ur.add("update-round-reentrant-listener", probes, ops, model_on=False)
+    # a handler that cancels its own browser mid-batch (stage O only: no cancel in the composite model)
+    for ops in cancel_in_handler_histories():
+        run_.add("cancel-in-handler", probes, ops, model_on=False)
     run_ur.finish()
 
     # outside the quantifier: model correspondence only (exercises the Added > Removed > Updated precedence, which WFHist makes unreachable)
@@ -694,6 +788,9 @@ def run(ctx):
                 % (res.dist.get("possible_types-names", 0), [(len(p[0]), len(p[1]), p[2]) for p in plans], n_exh, "complete" if complete else "cut short", done, len(VOCAB), max(1, n_random // 4)))
     res.rule = res.rule.replace("@NLIVE@", str(n_live))
     res.sample({"browser_types": BROWSER_TYPES, "example": [["BA", 1, CC.T0, [TX]], ["D", CC.T0, [CC.inst(_P, 120, 0)], []], ["X", CC.T0 + 1125000]]})
+    if any("cut short" in n or "stopped after" in n for n in res.notes):
+        # a stream was cut by the wall-clock budget (a loaded machine): the run is not the complete plan; the note says which stream
+        res.exhaustive = False
     res.count("wall_s", int(time.time() - t0))
     return res
 
